@@ -441,9 +441,9 @@ Qed.
 Print Assumptions C19_resolved_reply_nonvacuous.
 
 (* ---------------------------------------------------------------- DHCPv6 rewriters *)
-(* RewriteV6Lifetimes on any message with a well-formed option list: the TLV framing is untouched (same codes, same
-   lengths, same order); options other than IA_NA/IA_PD/IAADDR/IAPREFIX are unchanged byte for byte; in IA_NA/IA_PD the
-   IAID is kept and T1/T2 are pref/2 and pref*4/5 (no wrap); in IAADDR / IAPREFIX only the two lifetimes change *)
+(* General case (also IA nested in IA): the TLV framing of the top level is untouched.  NOTE: [rw_opt] refers to the
+   model's own [rewrite6] for the IA body and [dp] is existential, so this theorem alone does not pin the nested
+   lifetimes; the closed specification is C19_v6_lifetimes_nested / C19_v6_lifetimes_decoded below. *)
 Theorem C19_v6_lifetimes_framing : forall v h4 os pref valid, length h4 = 4%nat -> Forall opt6_ok os ->
   exists dp, rewrite_v6_lifetimes v (h4 ++ enc6 os) pref valid = h4 ++ enc6 (map (rw_opt v dp pref valid) os).
 Proof. exact rewrite_v6_lifetimes_spec. Qed.
@@ -523,3 +523,144 @@ Theorem C19_v6_proxy_sequence : forall h a sd b pd h' a' x b',
   get_server_duid (replace_server_duid req sd) = Some sd.
 Proof. exact v6_proxy_sequence. Qed.
 Print Assumptions C19_v6_proxy_sequence.
+
+(* ================================================================ audit round 2 *)
+(* ---------------------------------------------------------------- RewriteV6Lifetimes: closed specification *)
+(* For every message whose options are plain options or IA_NA / IA_PD with IAID, T1|T2 and a well-formed sub-option list
+   (opt6s_ok; no IA inside an IA): the result is byte for byte the message in which every IA has T1 = pref/2,
+   T2 = pref*4/5, every IAADDR (>= 24 bytes, inside an IA or at top level) has bytes 16..23 = pref|valid, every IAPREFIX
+   (>= 8 bytes) has bytes 0..7 = pref|valid, and NOTHING else differs ([spec_o]/[leaf] do not mention the model). *)
+Theorem C19_v6_lifetimes_nested : forall v h4 os pref valid, length h4 = 4%nat -> Forall opt6s_ok os ->
+  rewrite_v6_lifetimes v (h4 ++ enc6 (map enc_o os)) pref valid =
+  h4 ++ enc6 (map enc_o (map (spec_o (pref_t1 pref) (pref_t2 v pref) pref valid) os)).
+Proof. exact rewrite_v6_lifetimes_nested. Qed.
+Print Assumptions C19_v6_lifetimes_nested.
+
+(* the same through the independent TLV decoder: header kept; top-level options decode to the specified list; inside
+   every IA the decoder finds T1|T2 = pref/2 | pref*4/5 and exactly the old sub-options with [leaf] applied *)
+Theorem C19_v6_lifetimes_decoded : forall v h4 os pref valid, length h4 = 4%nat -> Forall opt6s_ok os ->
+  let out := rewrite_v6_lifetimes v (h4 ++ enc6 (map enc_o os)) pref valid in
+  let os' := map (spec_o (pref_t1 pref) (pref_t2 v pref) pref valid) os in
+  firstn 4 out = h4 /\ tlv6_all (skipn 4 out) = map enc_o os' /\
+  forall c iaid t12 subs, In (IA c iaid t12 subs) os' ->
+    t12 = put32 (pref_t1 pref) ++ put32 (pref_t2 v pref) /\
+    tlv6_all (skipn 12 (snd (enc_o (IA c iaid t12 subs)))) = subs /\
+    exists subs0 t0, In (IA c iaid t0 subs0) os /\ subs = map (leaf pref valid) subs0.
+Proof. exact v6_lifetimes_decoded. Qed.
+Print Assumptions C19_v6_lifetimes_decoded.
+
+Example C19_v6_lifetimes_nested_nonvacuous :
+  let addr := zeros 15 ++ [1] in
+  let os := [Plain 1 [0;1]; IA 3 [0;0;0;9] [0;0;0;1;0;0;0;2] [(5, addr ++ [0;0;0;3;0;0;0;4]); (13, [0;0])]; IA 25 [0;0;0;7] (zeros 8) [(26, zeros 8 ++ [56] ++ addr)]] in
+  Forall opt6s_ok os /\
+  map (spec_o 50 80 100 200) os =
+    [Plain 1 [0;1]; IA 3 [0;0;0;9] [0;0;0;50;0;0;0;80] [(5, addr ++ [0;0;0;100;0;0;0;200]); (13, [0;0])];
+     IA 25 [0;0;0;7] [0;0;0;50;0;0;0;80] [(26, [0;0;0;100;0;0;0;200] ++ [56] ++ addr)]].
+Proof.
+  cbv zeta. split; [|vm_compute; reflexivity].
+  assert (T : forall l : list (N * bytes), forallb (fun o => negb (fst o =? 3) && negb (fst o =? 25) && (fst o <? 65536) && (blen (snd o) <? 65536))%bool l = true ->
+              Forall opt6_ok l /\ Forall not_ia l).
+  { induction l as [|o r IH]; intros H; [split; constructor|]. cbn [forallb] in H. apply andb_true_iff in H. destruct H as [H Hr].
+    repeat (apply andb_true_iff in H; destruct H as [H ?]). apply negb_true_iff in H. apply N.eqb_neq in H.
+    match goal with E : negb (_ =? 25) = true |- _ => apply negb_true_iff in E; apply N.eqb_neq in E end.
+    repeat match goal with E : (_ <? _) = true |- _ => apply N.ltb_lt in E end.
+    destruct (IH Hr). split; constructor; try assumption; split; assumption. }
+  constructor; [unfold opt6s_ok, not_ia, opt6_ok, blen; cbn [fst snd length]; repeat split; lia|].
+  constructor; [cbn [opt6s_ok]; split; [left; reflexivity|]; split; [reflexivity|]; split; [reflexivity|];
+                destruct (T [(5, (zeros 15 ++ [1]) ++ [0;0;0;3;0;0;0;4]); (13, [0;0])] eq_refl); repeat split; try assumption; try (vm_compute; reflexivity)|].
+  constructor; [|constructor].
+  cbn [opt6s_ok]; split; [right; reflexivity|]; split; [reflexivity|]; split; [reflexivity|].
+  destruct (T [(26, zeros 8 ++ [56] ++ zeros 15 ++ [1])] eq_refl). repeat split; try assumption; try (vm_compute; reflexivity).
+Qed.
+Print Assumptions C19_v6_lifetimes_nested_nonvacuous.
+
+(* ---------------------------------------------------------------- IPv6/UDP header fields *)
+Theorem C19_ipv6_frame_fields : forall src dst sp dp payload s16 d16 f,
+  to16 src = Some s16 -> to16 dst = Some d16 -> ip_ok src -> ip_ok dst ->
+  build_ipv6_udp_frame src dst sp dp payload = Ok (Some f) -> frame6_fields f s16 d16 sp dp.
+Proof. exact build_ipv6_udp_frame_fields. Qed.
+Print Assumptions C19_ipv6_frame_fields.
+
+(* ---------------------------------------------------------------- DHCPv6 reply of the local server, field level *)
+(* plugins/dhcp6/local buildResponse (ADVERTISE / REPLY) for all resolved parameters — address, prefix (+ length),
+   lifetimes, DNS list, raw options that pass config validation (raw_option6_valid = DHCPv6Option.Validate) — re-parsed
+   with the model of dhcp6.ParseMessage: type, transaction id, client-id, server-id, IA_NA (IAID, T1 = pref/2,
+   T2 = pref*4/5, address, lifetimes), IA_PD (IAID, T1, T2, prefix, length, lifetimes), DNS servers all come back; no
+   status code *)
+Theorem C19_dhcp6_reply_fields : forall ty txid client server iana pd dns extras,
+  ty < 256 -> length txid = 3%nat -> blen client < 65536 -> blen server < 65536 ->
+  match iana with Some (iaid, addr, pref, valid) => iaid < 4294967296 /\ pref < 4294967296 /\ valid < 4294967296 /\ length addr = 16%nat | None => True end ->
+  match pd with Some (iaid, prefix, ones, pref, valid) => iaid < 4294967296 /\ pref < 4294967296 /\ valid < 4294967296 /\ length prefix = 16%nat /\ ones <= 128 | None => True end ->
+  Forall (fun d => exists a, d = Some a /\ length a = 16%nat) dns -> (length dns < 4096)%nat -> Forall raw6_ok extras ->
+  exists q, parse_message6 (build_response6 ty txid client server iana pd dns extras) = Some q /\
+    q_type q = ty /\ q_txid q = txid /\ q_client q = Some client /\ q_server q = Some server /\
+    q_iana q = match iana with Some (iaid, addr, pref, valid) => Some (ia_view iaid (pref / 2) (pref * 4 / 5) addr 0 pref valid) | None => None end /\
+    q_iapd q = match pd with Some (iaid, prefix, ones, pref, valid) => Some (ia_view iaid (pref / 2) (pref * 4 / 5) prefix ones pref valid) | None => None end /\
+    q_dns q = map opt_bytes dns /\ q_status q = None.
+Proof. exact response6_fields. Qed.
+Print Assumptions C19_dhcp6_reply_fields.
+
+Example C19_dhcp6_reply_fields_nonvacuous :
+  Forall raw6_ok [(24, [1;97;0])] /\
+  exists q, parse_message6 (build_response6 7 [1;2;3] [0;1;9] [0;3;7;7] (Some (5, zeros 15 ++ [1], 100, 200))
+                              (Some (6, [32;1;13;184] ++ zeros 12, 56, 100, 200)) [Some (zeros 15 ++ [53])] [(24, [1;97;0])]) = Some q /\
+            q_iana q = Some (ia_view 5 50 80 (zeros 15 ++ [1]) 0 100 200) /\
+            q_iapd q = Some (ia_view 6 50 80 ([32;1;13;184] ++ zeros 12) 56 100 200) /\ q_dns q = [zeros 15 ++ [53]].
+Proof. split; [repeat constructor; cbn; lia|]. eexists. vm_compute. repeat split. Qed.
+Print Assumptions C19_dhcp6_reply_fields_nonvacuous.
+
+(* without config validation a raw option with a built-in code wins (ParseOptions keeps the LAST instance): the
+   client-id the client reads is the raw option's.  Excluded by config.validateDHCPOptions, hence by raw6_ok. *)
+Theorem C19_dhcp6_reply_unvalidated_raw_refuted :
+  exists q, raw_option6_valid (1, [9;9]) = false /\
+    parse_message6 (build_response6 7 [1;2;3] [0;1;9] [0;3] None None [] [(1, [9;9])]) = Some q /\ q_client q = Some [9;9].
+Proof. eexists. vm_compute. repeat split. Qed.
+Print Assumptions C19_dhcp6_reply_unvalidated_raw_refuted.
+
+(* ---------------------------------------------------------------- the DHCPv4 relay pipeline, composed *)
+(* client -> server (plugins/dhcp4/relay|proxy handleForward): SetGIAddr, IncrementHops, InsertOption82(replace) on one
+   buffer, for every decodable client message: the options area is the old one without any option 82 plus the relay's
+   option 82 (exactly once, last), END/trailer (or no END) kept; in the fixed header ONLY byte 3 (hops, +1 mod 256) and
+   bytes 24..27 (giaddr) change — op, htype, hlen, xid, secs, flags, ciaddr..siaddr, chaddr, sname, file, cookie kept *)
+Theorem C19_relay_forward_faithful : forall hdr its tl gi g d, length hdr = 240%nat -> Forall item_ok its -> wf_tail tl ->
+  to4 gi = Some g -> (length d <= 255)%nat ->
+  exists out, relay_forward4 Repaired (wf_pkt hdr its tl) gi (82 :: blen d :: d) Replace = Ok out /\
+    out = wf_pkt (relay_hdr4 hdr g) (drop_code 82 its ++ [Opt 82 d]) tl /\
+    ref_options out = (filter (not_code 82) (opts_of its) ++ [(82, d)], tail_end tl) /\
+    firstn 4 (skipn 24 out) = g /\ nth 3 out 0 = (nth 3 hdr 0 + 1) mod 256 /\
+    firstn 3 out = firstn 3 hdr /\ firstn 20 (skipn 4 out) = firstn 20 (skipn 4 hdr) /\ firstn 212 (skipn 28 out) = skipn 28 hdr.
+Proof. exact relay_forward4_faithful. Qed.
+Print Assumptions C19_relay_forward_faithful.
+
+(* server -> client through the proxy: StripOption82 then RewriteForProxy: option 82 absent, 54/51/58/59 exactly once
+   with the proxy's values, every other option preserved in order, header and tail untouched (the frame around it:
+   C19_wrap_frame_verifies) *)
+Theorem C19_proxy_back_faithful : forall hdr its tl gi g lease, length hdr = 240%nat -> Forall item_ok its -> wf_tail tl ->
+  to4 gi = Some g ->
+  exists r its', strip_option82 Repaired (wf_pkt hdr its tl) = Ok (wf_pkt hdr (drop_code 82 its) tl) /\
+    rewrite_for_proxy Repaired (wf_pkt hdr (drop_code 82 its) tl) gi lease = Ok r /\ r = wf_pkt hdr its' tl /\ Forall item_ok its' /\
+    filter (has_code 82) (opts_of its') = [] /\
+    filter (has_code 54) (opts_of its') = [(54, g)] /\ filter (has_code 51) (opts_of its') = [(51, put32 lease)] /\
+    filter (has_code 58) (opts_of its') = [(58, put32 (lease / 2))] /\
+    filter (has_code 59) (opts_of its') = [(59, put32 (lease * 7 / 8))] /\
+    filter back_other (opts_of its') = filter back_other (opts_of its).
+Proof. exact proxy_back4_faithful. Qed.
+Print Assumptions C19_proxy_back_faithful.
+
+Example C19_relay_pipeline_nonvacuous :
+  exists out fr, relay_forward4 Repaired (wf_pkt ex_hdr ex_two82 [255]) (Some [10;0;0;1]) [82;3;1;1;90] Replace = Ok out /\
+    ref_options out = ([(53, [1]); (82, [1;1;90])], EndSeen []) /\ firstn 4 (skipn 24 out) = [10;0;0;1] /\ nth 3 out 0 = 1 /\
+    proxy_reply4 Repaired (wf_pkt ex_hdr (ex_server ++ [Opt 82 [1;1;90]]) [255]) (Some [10;0;0;1]) 3600 = Ok fr /\
+    verifies (firstn 20 fr) = true /\ verifies (pseudo4 fr ++ skipn 20 fr) = true /\
+    fst (ref_options (skipn 28 fr)) = [(53, [5]); (54, [10;0;0;1]); (51, [0;0;14;16]); (58, [0;0;7;8]); (59, [0;0;12;78]); (1, [255;255;255;0])].
+Proof. eexists. eexists. vm_compute. repeat split. Qed.
+Print Assumptions C19_relay_pipeline_nonvacuous.
+
+(* the RFC 3396 split of HEAD through the whole resolved path: 65 DNS servers (260 bytes) come back as one value *)
+Example C19_resolved_long_value_nonvacuous :
+  exists f v, build_response_resolved Repaired 7 None [1;2;3;4;5;6] 5 (Some [10;0;0;2]) (Some [10;0;0;1]) (Some [10;0;0;1])
+                [255;255;255;0] (repeat (Some [8;8;4;4]) 65) 3600 [] [] = Ok (Some f) /\
+    ref_decode4 (skipn 28 f) = Some v /\ v_end v = EndSeen [] /\ count_opt 6 (v_opts v) = 2%nat /\
+    opt_value 6 (v_opts v) = concat (repeat [8;8;4;4] 65) /\ verifies (pseudo4 f ++ skipn 20 f) = true.
+Proof. eexists. eexists. vm_compute. repeat split. Qed.
+Print Assumptions C19_resolved_long_value_nonvacuous.
